@@ -437,7 +437,7 @@ def dump_one(f: TextIO, data: IOData):
         mo_coeffs[:, index] *= contractions * scales
 
     # write title & keywords
-    _write_xml_single(tag=lbs["title"], info=data.title or "<Created with IOData>", file=f)
+    _write_xml_single(tag=lbs["title"], info="<Created with IOData>" if data.title is None else data.title, file=f)
     _write_xml_single(tag=lbs["keywords"], info=data.extra.get("keywords", "GTO"), file=f)
 
     # write number of nuclei & number of primitives
